@@ -24,6 +24,7 @@ import (
 type inputString struct {
 	s       string
 	runes   []rune
+	offsets []int // byte offset in s of each code point in runes
 	pointer int
 	eof     bool
 	length  int
@@ -33,6 +34,10 @@ func newInputString(s string) *inputString {
 	i := &inputString{runes: []rune(s), pointer: -1}
 	i.s = s
 	i.length = len(i.runes)
+	i.offsets = make([]int, 0, i.length)
+	for pos := range s {
+		i.offsets = append(i.offsets, pos)
+	}
 	return i
 }
 
@@ -56,11 +61,7 @@ func (i *inputString) getCurrentAsByte() byte {
 		i.eof = true
 		return 0
 	}
-	var pos int
-	for j := 0; j < i.pointer; j++ {
-		pos += utf8.RuneLen(i.runes[j])
-	}
-	return i.s[pos]
+	return i.s[i.offsets[i.pointer]]
 }
 
 func (i *inputString) rewindLast() {
